@@ -1692,6 +1692,7 @@ func propC07(r *Run) {
 		c.scanCase("leak-then-rewind", []byte(t), false)
 	}
 	c.timeOracle()
+	c.timeFamilies()
 	for _, cf := range corpus {
 		c.mutateFile(cf, quick)
 	}
